@@ -83,7 +83,8 @@ func (i *ReceiverInterceptor) BindRemoteStream(
 			return n, attr, err
 		}
 		packet := &rtp.Packet{}
-		if err := packet.Unmarshal(buf); err != nil {
+		// only the n bytes that were read belong to this packet
+		if err := packet.Unmarshal(buf[:n]); err != nil {
 			return 0, nil, err
 		}
 		i.m.Lock()
